@@ -15,7 +15,7 @@ def add(pid, engine, text, note, technique, ref):
 add("C01", A, "bounded symbolic: for every enumerated call configuration the real VJP rule is executed on symbolic arrays and an SMT solver decides <vjp(g),d> == <g,f'(x;d)> for ALL entries, cotangents and directions on every explored path; kink claims by full lexicographic forking", NOTE_A, T_A, "DESIGN.md §4 C01")
 add("C02", A, "bounded symbolic: for every enumerated call configuration the real JVP rule is executed on symbolic arrays and an SMT solver decides jvp(v) == f'(x;v) entry-wise for ALL entries and tangents on every explored path", NOTE_A, T_A, "DESIGN.md §4 C02")
 add("C04", A, "bounded symbolic: for every configuration with both rules the solver decides <g,jvp(v)> == <vjp(g),v> and linearity of both maps for ALL x, g, v and scalars a, b (no oracle: relates the two real rule tables)", NOTE_A, T_A, "DESIGN.md §4 C04")
-add("C05", A, "bounded symbolic: on every explored path of every configuration (real grid + real/complex kind mixes) the structure (nesting, shape, real/complex kind) of VJP and JVP results is asserted against argument / output", NOTE_A, "symbolic execution of the real rules over the configuration grid with path forking by SMT feasibility; structural assertions on every path", "DESIGN.md §4 C05")
+add("C05", A, "bounded symbolic: on every explored path of every configuration (real grid + real/complex kind mixes) the structure (nesting, shape, real/complex kind) of VJP and JVP results is asserted against argument / output", NOTE_A, "symbolic execution of the real rules over the configuration grid with path forking by SMT feasibility, structural assertions on every path; plus CrossHair (z3) over a shape-level NumPy model bound into the real helper code (unbroadcast, broadcast, repeat_to_match_shape, repeat/tile/transpose/concatenate/broadcast_to rules, dot/tensordot/matmul adjoints) with UNBOUNDED symbolic dimensions, counterexamples replayed in plain Python", "DESIGN.md §4 C05, §9.9")
 EXTRA = os.path.join(HERE, "tools", "manifest_extra.py")
 if os.path.exists(EXTRA):
     exec(open(EXTRA).read())
